@@ -6,7 +6,7 @@
     [iso g h] = some map injective on the nodes of g relabels g into h up to [geq]. *)
 From Coq Require Import List NArith ZArith Bool Arith Permutation.
 From SK Require Import lib.IRSortKeys lib.IRCore lib.IRSearch model.C18_Model proof.C18_Order proof.C18_Spec
-  proof.C18_Graph proof.C18_Canon proof.C18_Equiv proof.C18_Label proof.C18_Aut proof.C18_Invariant.
+  proof.C18_Graph proof.C18_Canon proof.C18_Equiv proof.C18_Label proof.C18_Aut proof.C18_Invariant proof.C18_Wf proof.C18_Count proof.C18_Examples.
 From SK Require lib.IRInst.
 Import ListNotations.
 
@@ -81,3 +81,48 @@ Theorem C18_canon_invariant : forall (f : N -> N), (forall x y, f x = f y -> x =
   lab' = lab /\ geq (canon_graph g' p') (canon_graph g p).
 Proof. exact canon_invariant. Qed.
 Print Assumptions C18_canon_invariant.
+
+(** The premises are decidable; the boolean versions are part of the observable of every correspondence case
+    (run_net evaluates [wfb g && kinds_okb g && arcs_okb g] on the view, the harness checks the same facts on the
+    networkx graph of the implementation). *)
+Theorem C18_premises_sound : forall g : vgraph,
+  (wfb g = true -> wf g) /\ (kinds_okb g = true -> kinds_ok g) /\ (arcs_okb g = true -> arcs_ok g).
+Proof. exact (fun g => conj (wfb_wf g) (conj (kinds_okb_ok g) (arcs_okb_ok g))). Qed.
+Print Assumptions C18_premises_sound.
+
+(** Known finding C18:view-id-collision (code kept as it is): the views put species labels and reaction ids into one
+    node namespace, so "renaming species" is NOT always a renaming of the view: an injective renaming of the species
+    whose image meets a reaction id merges two nodes; the renamed network has a view with fewer nodes, hence a
+    non-isomorphic canonical graph.  Clause 2 above is therefore stated for renamings of the VIEW's nodes. *)
+Theorem C18_species_renaming_refuted : exists (n : net) (f : N -> N),
+  inj_on f (nspecies n) /\
+  length (vnodes (view true true (rename_species f n))) <> length (vnodes (view true true n)).
+Proof. exact species_renaming_refuted. Qed.
+Print Assumptions C18_species_renaming_refuted.
+
+(** Clause 4, count: the list of minimal leaves (whose length the code reports as automorphism_count) is a
+    duplicate-free enumeration of the structure-preserving self-maps of the view: q is a minimal leaf iff q is the image
+    of the best permutation under a self-map preserving kinds and arcs with role / stoich ([is_aut]), and two self-maps
+    with the same image agree on every node. *)
+Theorem C18_aut_count : forall (g : vgraph) (lab p : list N),
+  wf g -> kinds_ok g -> arcs_ok g -> fst (canon_search g) = Some (lab, p) ->
+  NoDup (min_leaves g) /\
+  (forall q, In q (min_leaves g) <-> exists s, is_aut g s /\ q = map s p) /\
+  (forall s s', is_aut g s -> is_aut g s' -> map s p = map s' p -> forall v, In v (node_ids g) -> s v = s' v).
+Proof. exact aut_count. Qed.
+Print Assumptions C18_aut_count.
+
+(** Clause 4, orbits -- PARTIAL.  Full statement wanted:
+      forall u v in node_ids g,  (exists s, is_aut g s /\ s u = v)  <->  u and v lie in the same set of
+      orbits_from_perms (min_leaves g).
+    Proved: the relation "exchangeable by a structure-preserving self-map" is exactly the relation read off the minimal
+    leaves position-wise (below).  Missing: correctness of the slot-based union-find of _orbits_from_perms
+    (orbits_from_perms in the model) w.r.t. that relation; because a merged-away slot is empty, a later merge through
+    that slot is a no-op and the argument needs that the leaf list is closed under composition (it is the image of a
+    group).  That step is tested on every case (oracle: brute-force orbits; correspondence: orbit sets), not proved. *)
+Theorem C18_orbits_partial : forall (g : vgraph) (lab p : list N) (u v : N),
+  wf g -> kinds_ok g -> arcs_ok g -> fst (canon_search g) = Some (lab, p) -> In u (node_ids g) ->
+  ((exists s, is_aut g s /\ s u = v) <->
+   (exists q i, In q (min_leaves g) /\ i < length p /\ nth i p 0%N = u /\ nth i q 0%N = v)).
+Proof. exact orbit_pairs. Qed.
+Print Assumptions C18_orbits_partial.
